@@ -16,6 +16,12 @@
                                                    non-extending byte)
                 trailing-garbage-accepted:<mode>   string entry points accept a trailing non-whitespace byte
                 trailing-whitespace-rejected
+              a quarter of the documents are also followed by 1..3 complete // comment lines (ended by \n, \r or \r\n):
+                trailing-comment-rejected / ext-default-meaning:comment:trailing   default mode, string entry points: accepted
+                                                   with json.loads(document)
+                ext-strict-accepts:comment:trailing                                strict mode: rejected
+                trailing-garbage-accepted:after-comment:<mode>   non-whitespace after the line break that ends the last
+                                                   comment is trailing data: rejected in both modes
   py_ext      one documented extension injected into a valid document (trailing comma, hex integer, n/t/f, // comment):
                 ext-default-rejects / ext-default-meaning:<ext>   default mode must give json.loads(original)
                 ext-strict-accepts:<ext>                          strict mode must throw
@@ -323,11 +329,24 @@ def render(toks):
 _NON_EXT = list(b" ,]}:\"\n#@!z[{-/*\x00\xff")
 _GARBAGE_FIRST = list(b",]}:\"#@!z[{-*\x00\xff\x80")
 
+_COMMENT_LINE = st.tuples(WS, st.text(alphabet='abc \t"[]{},:/\\019*#-ntfx', max_size=11), st.sampled_from(["\n", "\n", "\r", "\r\n"])).map(lambda p: p[0] + "//" + p[1] + p[2])
+# whitespace and 1..3 complete // comment lines; "" = the document is not followed by comments
+COMMENT_TAIL = st.one_of(st.just(""), st.just(""), st.just(""),
+                         st.tuples(st.lists(_COMMENT_LINE, min_size=1, max_size=3), WS).map(lambda p: "".join(p[0]) + p[1]))
+# what stands after the comment tail (after a line break nothing extends the document): bytes, a numeral, a literal, a second document
+AFTER_COMMENT = st.one_of(
+    st.tuples(st.sampled_from(_GARBAGE_FIRST), st.binary(max_size=3)).map(lambda p: (bytes([p[0]]) + p[1]).hex()),
+    st.sampled_from(["2", "0", "-1", "null", "true", "x", "}", "]", ",", '"a"', "[]", "{}", "/", "/ /", "/*", "*/", "#", "\\"]).map(lambda t: t.encode().hex()),
+    st.deferred(lambda: value_tokens(1)).map(lambda toks: render(toks).encode("ascii").hex()),
+)
+_TAIL_RE = re.compile(r"(?:[ \t\n\r]*//[^\n\r]*[\n\r])+[ \t\n\r]*\Z")
+
 grammar_cases = st.fixed_dictionaries({
     "toks": st.one_of(container_tokens(4), container_tokens(3), container_tokens(2), leaf_tokens(), nested_tokens(), bulk_doc_tokens()),
     "lead": WS, "trail": WS,
     "suffix": st.tuples(st.sampled_from(_NON_EXT), st.binary(max_size=4)).map(lambda p: (bytes([p[0]]) + p[1]).hex()),
     "garbage": st.tuples(st.sampled_from(_GARBAGE_FIRST), st.binary(max_size=3)).map(lambda p: (bytes([p[0]]) + p[1]).hex()),
+    "ctail": COMMENT_TAIL, "after": AFTER_COMMENT,
 })
 
 
@@ -369,6 +388,27 @@ def run_grammar(case, rt):
         for entry in (PTR, STRING):
             res = call_parse(rt, t, strict, entry)
             hc.vcheck(res[0] == "reject", "trailing-garbage-accepted:%s" % mode, "JSON::parse(%s) accepted %r" % (ENTRY_NAMES[entry], t[:200]))
+    ctail = case.get("ctail", "")
+    if ctail:
+        # whitespace + complete // comment lines after the document, then data after the last comment's line break
+        after = bytes.fromhex(case["after"])
+        if not _TAIL_RE.match(ctail) or not after or after[:1] in b" \t\n\r" or after[:2] == b"//":
+            raise hc.Fail("harness-generator-not-standard", "bad comment tail %r / data %r" % (ctail, after))
+        t = docb + ctail.encode("ascii")
+        for strict in (False, True):
+            mode = "strict" if strict else "default"
+            for entry in (PTR, STRING):
+                res = call_parse(rt, t, strict, entry)
+                if strict:
+                    hc.vcheck(res[0] == "reject", "ext-strict-accepts:comment:trailing", "strict mode (%s) accepts the // comment after the document in %r" % (ENTRY_NAMES[entry], t[-200:]))
+                else:
+                    hc.vcheck(res[0] == "ok", "trailing-comment-rejected", "default mode (%s) rejects a document followed by whitespace and // comment lines only: %r: %s" % (ENTRY_NAMES[entry], t[-200:], res[1:]))
+                    r = compare(res[1], want)
+                    hc.vcheck(r is None, "ext-default-meaning:comment:trailing", "default mode value differs when // comment lines follow the document %r: %s" % (t[-200:], r))
+                res = call_parse(rt, t + after, strict, entry)
+                hc.vcheck(res[0] == "reject", "trailing-garbage-accepted:after-comment:%s" % mode,
+                          "JSON::parse(%s) accepted the data %r that stands after the line break ending the // comment: %r" % (ENTRY_NAMES[entry], after[:40], (t + after)[-200:]))
+        rt.cls("py:followed by // comment lines (then by data)")
     depth = max_depth(want)
     if depth >= 2 and any(k in core for k in (".", "e", "E", "\\")):
         rt.nontrivial()
